@@ -40,6 +40,7 @@ fn main() {
         i += 1;
     }
     install_panic_hook();
+    jbv::ctx::start_case_watchdog();
     let mut ctx = Ctx::new(&prop, tier, seed, shard, nshards, scale, out.clone(), repo);
     ctx.only_sub = sub;
     ctx.replay = replay;
